@@ -26,6 +26,9 @@ JOBS = list(JOBS) + [j for j in _c10.JOBS if j.name in ("c10.tree.get.bounded", 
 import importlib as _il
 JOBS = list(JOBS) + [j for j in _il.import_module("units.c01").JOBS if j.name in ("c01.create", "c01.entry_point", "c01.exit", "c01.testcancel")]
 JOBS = list(JOBS) + [j for j in _il.import_module("units.c12").JOBS if j.name in ("c12.cleanup",)]
+# the public API functions are one-line forwarders to the bodies under contract: checked mechanically (DESIGN 3.5b)
+from units.common_forward import forward_job
+JOBS = list(JOBS) + [forward_job("c11")]
 META = {
  "level": "proof",
  "level_text": "Inductive contract proof (--enforce-contract-rec) of the real recursive destructor walk and node release for an arbitrary tree level, any witness key, any destructor table and values; the top-level myth_tls_tree_fini is checked against those contracts. ",
